@@ -11902,6 +11902,15 @@ tsk_table_collection_loadf_inited(
             goto out;
         }
     }
+    if (!(kas_flags & KAS_READ_ALL)) {
+        /* Arrays are read lazily in this mode, so the stream is left wherever the
+         * last read ended. Move it to the end of this store so that the next
+         * store on the stream can be read. */
+        if (fseek(file, store.file_offset + (long) store.file_size, SEEK_SET) != 0) {
+            ret = tsk_trace_error(TSK_ERR_IO);
+            goto out;
+        }
+    }
     ret = kastore_close(&store);
     if (ret != 0) {
         goto out;
